@@ -6,7 +6,11 @@ Shape: definitional oracles evaluated on the fitted object, all computed on the 
  (b) every profile point == reference cost re-minimised over the other free parameters with that parameter pinned;
  (c) every asymmetric uncertainty is a displacement at which the reference profile has risen by 1;
  (d) every point of an n-sigma contour lies where the reference two-parameter profile has risen by n^2;
- (e) error_band(x) == sqrt(diag(J C J^T)) with the analytic Jacobian over the free parameters (float and integer x, outside the data range).
+ (e) error_band(x) == sqrt(diag(J C J^T)) with the analytic Jacobian over the free parameters (float and integer x, outside the data range);
+ (m) multi-fits (two xy members sharing >= 1 parameter, member signatures in random relative order): (a) and (c) for the MultiFit on the joint
+     reference cost (sum of the members' reference costs) over the combined free parameters; after MultiFit.do_fit every member reports, for ITS
+     parameters in ITS order, the entries of that covariance / errors / correlation / asymmetric errors selected BY PARAMETER NAME, and every
+     member's error_band is the propagation of that sub-block through the member model's analytic parameter derivatives.
 """
 import numpy as np
 from scipy import optimize
@@ -22,12 +26,19 @@ TIERS = {"quick": {"shards": 8, "budget_s": 50}, "thorough": {"shards": 16, "bud
 RULE = (
     "fitted problem (xy linear/nonlinear with y / x / correlated / model-relative sources, hist with Poisson likelihood; fixed subsets; both backends) x "
     "{covariance, errors, correlation, profile of every free parameter, asymmetric errors, 1/2-sigma contour of a parameter pair, error band at float/int/outside x}; "
-    "plus adapter-level cases (quadratic + quartic test functions, errordef 1 and 0.5); non-trivial = >= 2 free parameters and correlated or non-parabolic cost or a fixed parameter; distinct by case hash"
+    "plus adapter-level cases (quadratic + quartic test functions, errordef 1 and 0.5); "
+    "plus multi-fits (every 16th case, alternating with the adapter cases: 2 xy members from family pairs with 1-4 common parameter names, linear and nonlinear, y / x / correlated / model-relative sources, "
+    "member order and both signatures permuted at random; stratified: in 3 of 4 the later member's parameter order is not a subsequence of the multi-fit's; a fixed parameter in every third block of 4; both backends) x "
+    "{multi-fit covariance / errors / correlation on the joint reference cost, every member's covariance / errors / correlation = sub-block by name, every member's error band inside and outside its data range, "
+    "MINOS errors of the multi-fit and the rows the members report}; non-trivial = >= 2 free parameters and correlated or non-parabolic cost or a fixed parameter; distinct by case hash"
 )
 ASSUMPTIONS = [
     "no parameter rests on a limit (limits are not declared here; C06 covers them)",
     "covariance tolerance |C - C_ref|_ij / sqrt(C_ii C_jj): linear problems 5e-3 (scipy) / max(5e-3, 2e-7 cond) (iminuit HESSE; after fixing / releasing a parameter MINUIT re-uses its previous state: 1e-1 as in the nonlinear case); nonlinear problems 3e-2 (scipy) / 1e-1 (iminuit HESSE at strategy 1)",
     "profile points within 1e-3 + 1e-3 * rise of the reference profile (5e-3 for scipy); asymmetric errors: reference rise 1 +- 3e-2 (iminuit MINOS) / 6e-2 (scipy); contour points: rise within [0.8, 1.25] n^2",
+    "multi-fits: no shared uncertainty sources and no constraints (the joint cost is the sum of the members' costs; C10/C11 cover shared sources); same tolerances as single fits, "
+    "a problem is 'linear' only if both members are; member values are compared with the reference 2 H^-1 selected by name (tolerance as for the multi-fit; correlation 2x that), the member error band with the "
+    "multi-fit's own covariance selected by name (2e-3 relative); quick tier: MINOS errors of two parameters (a shared one first) per case",
     "error band relative 2e-3 + the analytic bound of the implementation's numerical parameter derivative; problems whose reference Hessian has cond > 1e4 are discarded (MINUIT's HESSE / MNPROFILE lose accuracy in proportion to it)",
 ]
 ANCHORS = [
@@ -48,15 +59,21 @@ ANCHORS = [
     ("kafe2.core.minimizers.scipy_optimize_minimizer", "MinimizerScipyOptimize.contour"),
     ("kafe2.fit.xy.fit", "XYFit.error_band"),
     ("kafe2.fit.xy.model", "XYParametricModel.eval_model_function_derivative_by_parameters"),
+    ("kafe2.fit.multi.fit", "MultiFit._update_singular_fits"),
+    ("kafe2.fit.multi.fit", "MultiFit._get_parameter_indices"),
 ]
 
 
 def floors(tier):
     return {
-        "comparisons": {"cov=2Hinv": 40, "errors=sqrt-diag": 40, "cor=normalised": 40, "profile-point": 100, "asymmetric-rise": 30, "contour-point-rise": 30, "error-band": 40, "adapter.cov=2*errordef*Hinv": 8, "cov=2Hinv.after-fix": 15, "profile.subtract_min": 20, "errors=sqrt-diag.after-fix": 15},
-        "ops": ["do_fit", "profile", "asymmetric", "contour", "error_band"],
+        "comparisons": {"cov=2Hinv": 40, "errors=sqrt-diag": 40, "cor=normalised": 40, "profile-point": 100, "asymmetric-rise": 30, "contour-point-rise": 30, "error-band": 40, "adapter.cov=2*errordef*Hinv": 8, "cov=2Hinv.after-fix": 15, "profile.subtract_min": 20, "errors=sqrt-diag.after-fix": 15,
+                        "multi.cov=2Hinv": 8, "multi.errors=sqrt-diag": 8, "multi.cor=normalised": 8, "multi.member.cov=subblock-by-name": 15, "multi.member.errors=subblock-by-name": 15,
+                        "multi.member.cor=subblock-by-name": 15, "multi.member.error-band": 15, "multi.asymmetric-rise": 4, "multi.member.asymmetric-rise": 4},
+        "ops": ["do_fit", "profile", "asymmetric", "contour", "error_band", "multi.do_fit", "multi.member.error_band", "multi.asymmetric", "multi.case.member-order-not-subsequence"],
         "reach": ["%s:%s" % a for a in ANCHORS],
-        "strata": ["iminuit", "scipy", "fixed", "xy", "hist", "int-x-band", "outside-range-band", "errordef-0.5", "errordef-1.0", "limited-inactive"],
+        "strata": ["iminuit", "scipy", "fixed", "xy", "hist", "int-x-band", "outside-range-band", "errordef-0.5", "errordef-1.0", "limited-inactive",
+                   "multi", "multi:iminuit", "multi:scipy", "multi:member-order-not-subsequence", "multi:fixed"],
+        "sets": {"multi.family-pair": 4},
         "distinct_nontrivial": 40,
     }
 
@@ -65,9 +82,13 @@ def floors(tier):
 def gen_case(rng, tier, idx, shard, nshards):
     gi = idx * nshards + shard
     if gi % 8 == 7:
-        return {"property": "C07", "kind": "adapter", "minimizer": ["iminuit", "scipy"][(gi // 8) % 2], "errordef": [1.0, 0.5][(gi // 16) % 2], "seed": int(rng.integers(0, 2**31)), "quartic": bool(rng.random() < 0.4), "npar": int(rng.integers(2, 5)), "fix": bool(rng.random() < 0.4)}
-    if gi % 8 == 4:
-        return gen_multi_case(rng, tier, gi // 8)
+        # the cheap slot (an adapter case takes milliseconds) is shared: adapter cases and multi-fit cases alternate; both are indexed by their own
+        # counter so that backend / errordef / order strata do not alias with the alternation
+        k = gi // 8
+        if k % 2 == 1:
+            return gen_multi_case(rng, tier, k // 2)
+        ai = k // 2
+        return {"property": "C07", "kind": "adapter", "minimizer": ["iminuit", "scipy"][ai % 2], "errordef": [1.0, 0.5][(ai // 2) % 2], "seed": int(rng.integers(0, 2**31)), "quartic": bool(rng.random() < 0.4), "npar": int(rng.integers(2, 5)), "fix": bool(rng.random() < 0.4)}
     minimizer = ["iminuit", "scipy"][gi % 2]
     ftype = ["xy", "xy", "xy", "hist"][(gi // 2) % 4]
     setup = []
@@ -142,7 +163,7 @@ def gen_multi_case(rng, tier, mi):
     parameter order is NOT a subsequence of the multi-fit's order (its index list into the multi-fit is not increasing)"""
     minimizer = ["iminuit", "scipy"][mi % 2]
     want_nonsub = (mi // 2) % 4 != 3
-    want_fixed = (mi // 8) % 3 == 1
+    want_fixed = (mi // 4) % 3 == 1
     for _attempt in range(200):
         fams = list(MULTI_PAIRS[int(rng.integers(0, len(MULTI_PAIRS)))])
         truth_by_name = {}
@@ -186,8 +207,17 @@ def gen_multi_case(rng, tier, mi):
         q = comb[int(rng.integers(0, len(comb)))]
         fixed[q] = float(np.round(truth_by_name[q] * rng.uniform(0.98, 1.02), 5))
     start = {q: float(np.round(truth_by_name[q] * rng.uniform(0.95, 1.05), 5)) for q in comb if q not in fixed}
+    # asymmetric errors (MINOS; the reference profile is expensive): every third iminuit case; quick tier: of two parameters, a shared one first
+    free = [q for q in comb if q not in fixed]
+    shared = [q for q in free if q in mnames[0] and q in mnames[1]]
+    apars = [shared[int(rng.integers(0, len(shared)))]] if shared else []
+    rest = [q for q in free if q not in apars]
+    if rest:
+        apars.append(rest[int(rng.integers(0, len(rest)))])
+    if tier != "quick":
+        apars = free
     return {"property": "C07", "kind": "multi", "minimizer": minimizer, "members": members, "fixed": fixed, "start": start,
-            "extras": {"asymmetric": bool(minimizer == "iminuit" and (mi // 2) % 3 == 0)}, "aux_seed": int(rng.integers(0, 2**31))}
+            "extras": {"asymmetric": bool(minimizer == "iminuit" and (mi // 2) % 3 == 0), "asymmetric_parameters": apars}, "aux_seed": int(rng.integers(0, 2**31))}
 
 
 # ------------------------------------------------------------------ reference helpers
@@ -690,6 +720,7 @@ def run_multi_case(ctx, case):
     for j in range(1, len(mbs)):
         if any(b < a for a, b in zip(idx[j], idx[j][1:])):
             ctx.stratum("multi:member-order-not-subsequence")
+            ctx.op("multi.case.member-order-not-subsequence")
     if all(ix == sorted(ix) for ix in idx):
         ctx.stratum("multi:member-orders-agree")
     ctx.stratum("multi:shared-%d" % min(sum(q in mnames[0] for q in mnames[1]), 3))
@@ -800,10 +831,9 @@ def run_multi_case(ctx, case):
             ddj = np.where(np.diag(cmj) > 0, np.sqrt(np.abs(np.diag(cmj))), 1.0)
             ctx.check("multi.member.cor=normalised", bool(corj.shape == cmj.shape and np.all(np.abs(corj[fs] - (cmj / np.outer(ddj, ddj))[fs]) <= 1e-9)), lambda: dict(dj, got=corj, expected=cmj / np.outer(ddj, ddj)))
             ctx.check("multi.member.cor=subblock-by-name", bool(corj.shape == cmj.shape and np.all(np.abs(corj[fs] - cor_ref[sub][fs]) <= 2.0 * tol)), lambda: dict(dj, got=corj, expected=cor_ref[sub], tolerance=2.0 * tol))
-    if sum(ctx._wit_per_key.values()) != nv:
-        return nontrivial
     # ---- (e) every member's error band: the covariance of the member's parameters (taken by name from the multi-fit's, which was just
-    # compared with the definition) propagated through the member model's analytic parameter derivatives
+    # compared with the definition) propagated through the member model's analytic parameter derivatives (no state changed since the
+    # previous block: evaluated also if that block diverged)
     for j, (mb, mn, ix) in enumerate(zip(mbs, mnames, idx)):
         ctx.op("multi.member.error_band")
         m = mb.ref.model
@@ -842,6 +872,7 @@ def run_multi_case(ctx, case):
         if ae is not None:
             ae = np.array(ae, dtype=float)
             atol = 3e-2 if minimizer == "iminuit" else 6e-2
+            apars = case["extras"].get("asymmetric_parameters") or [names[i] for i in free_idx]
             rises = {}
 
             def rise_at(i, e):
@@ -853,6 +884,8 @@ def run_multi_case(ctx, case):
 
             def check_rows(obs, rows, ix, extra):
                 for k, i in enumerate(ix):
+                    if names[i] not in apars and i in free_idx:
+                        continue
                     if i not in free_idx:
                         ctx.check(obs + ".fixed-zero", bool(np.all(rows[k] == 0) or np.all(np.isnan(rows[k]))), lambda: dict(d, parameter=names[i], got=rows[k], **extra))
                         continue
